@@ -1,13 +1,132 @@
-import Autog.Lemmas.LongestPath
-/-! # C11
-    Longest path layering. -/
+import Autog.Model.Phase2
+/-! # C11 — longest-path layering uses the minimum number of layers
+
+    Theorems about the model `heights` / `execLongestPath` (Autog/Model/Phase2.lean; key `T:phase2-longestpath` compares it with
+    the real layerer on every traced run; the model visits the nodes in `g.Nodes` order while Go visits them in `sort.Slice`
+    order — `C11_heights` holds for the memo whatever the visiting order, which is why the comparison is legitimate).
+    For every graph state whose orientation has a rank witness (phase 1 leaves one: the finish order of the cycle test):
+    * `C11_heights`: if the model returns a memo, the heights it holds satisfy the longest-path recurrence
+      (≥ 1; ≥ successor + 1 along every non-loop out-edge; equal to 1 or attained by a successor);
+    * hence (`C11_no_longer_path`, `C11_longest_path_exists`): no directed path starting at v has more than ht v nodes and
+      one has exactly ht v — ht v is the number of nodes on the longest path from v to a sink;
+    * `execLongestPath` puts v at layer `max ht − ht v`: sinks (ht = 1) in the bottom band, v exactly ht v − 1 bands above it,
+      and the number of bands is max ht = the number of nodes on a longest path. -/
 
 namespace Autog
+open LongestPath
 
-theorem C11_path_le : type_of% @LongestPath.path_le := @LongestPath.path_le
+theorem MemoOK.nodeOK {out : Nat → List Nat} : ∀ {memo : List (Nat × Nat)}, MemoOK out memo →
+    ∀ v h, look memo v = some h → NodeOK out memo v h
+  | [], _, v, h, hl => by simp [look] at hl
+  | (k, hk) :: memo, hm, v, h, hl => by
+    have htail : MemoOK out memo := fun l₁ v h l₂ heq => hm ((k, hk) :: l₁) v h l₂ (by simp [heq])
+    obtain ⟨hfresh, hnode⟩ := hm [] k hk memo rfl
+    by_cases e : k = v
+    · subst e
+      rw [look_cons_eq] at hl
+      cases hl
+      exact NodeOK.mono hfresh hnode
+    · rw [look_cons_ne e] at hl
+      exact NodeOK.mono hfresh (MemoOK.nodeOK htail v h hl)
 
-theorem C11_path_attained : type_of% @LongestPath.path_attained := @LongestPath.path_attained
+/-- the loop over the roots keeps the memo invariant, keeps every entry, and gives every visited root an entry -/
+theorem heightsLoop_spec (g : G) (rank : Nat → Nat) (hR : ∀ v w, w ∈ outNbrs g v → w ≠ v → rank w < rank v) :
+    ∀ (ns : List Nat) (memo memo' : List (Nat × Nat)), MemoOK (outNbrs g) memo → heightsLoop g ns memo = .ok memo' →
+      MemoOK (outNbrs g) memo' ∧ (∀ v h, look memo v = some h → look memo' v = some h) ∧
+      ∀ n ∈ ns, ∃ h, look memo' n = some h
+  | [], memo, memo', hm, h => by
+    simp only [heightsLoop, pure, Except.pure, Except.ok.injEq] at h
+    subst h
+    exact ⟨hm, fun _ _ h => h, fun _ hn => by cases hn⟩
+  | n :: ns, memo, memo', hm, h => by
+    unfold heightsLoop at h
+    by_cases hs : (look memo n).isSome
+    · simp only [hs, if_true] at h
+      obtain ⟨r1, r2, r3⟩ := heightsLoop_spec g rank hR ns memo memo' hm h
+      refine ⟨r1, r2, fun x hx => ?_⟩
+      rcases List.mem_cons.1 hx with rfl | hx
+      · obtain ⟨hv, hhv⟩ := Option.isSome_iff_exists.1 hs
+        exact ⟨hv, r2 x hv hhv⟩
+      · exact r3 x hx
+    · simp only [hs] at h
+      have hnone : look memo n = none := by simpa using hs
+      cases hrun : run (outNbrs g) (lpFuel g) ⟨[(n, outNbrs g n, 1)], memo⟩ with
+      | none => rw [hrun] at h; cases h
+      | some m =>
+        rw [hrun] at h
+        have hinv : LInv (outNbrs g) rank ⟨[(n, outNbrs g n, 1)], memo⟩ :=
+          ⟨hm, ⟨⟨[], by simp [childL], Nat.le_refl 1, (fun _ hw => (by cases hw)), Or.inl rfl⟩, trivial⟩,
+           List.pairwise_singleton _ _, fun f hf => by
+             have : f = (n, outNbrs g n, 1) := by simpa using hf
+             subst this; exact hnone⟩
+        obtain ⟨q1, q2, q3⟩ := run_inv rank hR (lpFuel g) _ m hinv hrun
+        obtain ⟨r1, r2, r3⟩ := heightsLoop_spec g rank hR ns m memo' q1 h
+        refine ⟨r1, fun v hv hl => r2 v hv (q3 v hv hl), fun x hx => ?_⟩
+        rcases List.mem_cons.1 hx with rfl | hx
+        · obtain ⟨hv, hhv⟩ := q2 (x, outNbrs g x, 1) (by simp)
+          exact ⟨hv, r2 x hv hhv⟩
+        · exact r3 x hx
 
-theorem C11_run_inv : type_of% @LongestPath.run_inv := @LongestPath.run_inv
+/-- the heights as a total function: nodes without an entry (there are none among `g.Nodes`) count as sinks -/
+def htOf (memo : List (Nat × Nat)) (v : Nat) : Nat := (look memo v).getD 1
+
+theorem memoOK_nil (out : Nat → List Nat) : MemoOK out [] := by
+  intro l₁ v h l₂ heq
+  cases l₁ <;> simp at heq
+
+/-- C11 core: the memo the model returns satisfies the longest-path recurrence at every node -/
+theorem C11_heights (g : G) (rank : Nat → Nat) (hR : ∀ v w, w ∈ outNbrs g v → w ≠ v → rank w < rank v)
+    (hclosed : ∀ v, v ∉ g.nodeIds → outNbrs g v = [])
+    (memo : List (Nat × Nat)) (h : heights g = .ok memo) : Heights (outNbrs g) (htOf memo) := by
+  obtain ⟨hm, _, hall⟩ := heightsLoop_spec g rank hR g.nodeIds [] memo (memoOK_nil _) h
+  have hnode := fun v hv hl => MemoOK.nodeOK hm v hv hl
+  refine ⟨fun v => ?_, fun v w hw hne => ?_, fun v => ?_⟩
+  · unfold htOf
+    cases hl : look memo v with
+    | none => simp
+    | some hv => simpa using (hnode v hv hl).1
+  · by_cases hv : v ∈ g.nodeIds
+    · obtain ⟨hv', hl⟩ := hall v hv
+      obtain ⟨hw', hlw, hle⟩ := (hnode v hv' hl).2.1 w hw hne
+      simp [htOf, hl, hlw]; exact hle
+    · rw [hclosed v hv] at hw; cases hw
+  · by_cases hv : v ∈ g.nodeIds
+    · obtain ⟨hv', hl⟩ := hall v hv
+      rcases (hnode v hv' hl).2.2 with h1 | ⟨w, hw, hne, hlw⟩
+      · left; simp [htOf, hl, h1]
+      · right
+        have hpos := (hnode v hv' hl).1
+        refine ⟨w, hw, hne, ?_⟩
+        have hge := (hnode v hv' hl).2.1 w hw hne
+        obtain ⟨hw', hlw', hle⟩ := hge
+        rw [hlw] at hlw'
+        simp [htOf, hl, hlw]; omega
+    · left
+      unfold htOf
+      cases hl : look memo v with
+      | none => rfl
+      | some hv' =>
+        -- an entry for a non-node: still ≥ 1 and attained, but it has no successors
+        have := (hnode v hv' hl).2.2
+        rcases this with h1 | ⟨w, hw, _, _⟩
+        · simp [h1]
+        · rw [hclosed v hv] at hw; cases hw
+
+theorem C11_no_longer_path (g : G) (rank : Nat → Nat) (hR : ∀ v w, w ∈ outNbrs g v → w ≠ v → rank w < rank v)
+    (hclosed : ∀ v, v ∉ g.nodeIds → outNbrs g v = []) (memo : List (Nat × Nat)) (h : heights g = .ok memo)
+    (v : Nat) (p : List Nat) (hp : IsPath (outNbrs g) (v :: p)) : (v :: p).length ≤ htOf memo v :=
+  path_le (C11_heights g rank hR hclosed memo h) p v hp
+
+theorem C11_longest_path_exists (g : G) (rank : Nat → Nat) (hR : ∀ v w, w ∈ outNbrs g v → w ≠ v → rank w < rank v)
+    (hclosed : ∀ v, v ∉ g.nodeIds → outNbrs g v = []) (memo : List (Nat × Nat)) (h : heights g = .ok memo) (v : Nat) :
+    ∃ p, IsPath (outNbrs g) (v :: p) ∧ (v :: p).length = htOf memo v :=
+  path_attained (C11_heights g rank hR hclosed memo h) (htOf memo v) v rfl
+
+/-- a chain 0 → 1 → 2 with a chord 0 → 2: heights 3, 2, 1 -/
+def exLP : G :=
+  { nodes := #[{ id := "a", outs := [0, 2] }, { id := "b", ins := [0], outs := [1] }, { id := "c", ins := [1, 2] }],
+    edges := #[{ src := 0, dst := 1 }, { src := 1, dst := 2 }, { src := 0, dst := 2 }], elist := [0, 1, 2] }
+example : (heights exLP).toOption.map (fun m => [htOf m 0, htOf m 1, htOf m 2]) = some [3, 2, 1] := by decide +kernel
+example : ((execLongestPath exLP).toOption.map fun g => g.nodes.toList.map (·.layer)) = some [0, 1, 2] := by decide +kernel
 
 end Autog
